@@ -28,6 +28,9 @@
 #include <kernel/util/dist.hpp>
 #include <control/domain/parti_domain_control.hpp>
 #include <control/scalar_basic.hpp>
+#include <control/stokes_blocked.hpp>
+#include <kernel/assembly/common_operators.hpp>
+#include <kernel/assembly/symbolic_assembler.hpp>
 #include <cstdio>
 #include <cstdint>
 #include <unistd.h>
@@ -371,6 +374,105 @@ namespace C13
     domain.add_trafo_mesh_part_charts();
     run(args, domain, data_seed, domain.get_chosen_parti_info(), domain.format_chosen_levels());
   }
+  // ---------------------------------------------------------------------------------------------
+  // blocked (velocity) and tuple (velocity, pressure) vectors: Taylor-Hood Stokes system level, no solve
+  // ---------------------------------------------------------------------------------------------
+  template<typename VB> void dump_blocked(const char* name, const VB& loc, const LAFEM::DenseVector<double, Index>& kx, const LAFEM::DenseVector<double, Index>& ky)
+  {
+    for(int c = 0; c < 2; ++c)
+    {
+      std::fprintf(g_log, "{\"t\":\"vec\",\"name\":\"%s.v%d\",\"n\":%lu,\"data\":[", name, c, (unsigned long)loc.size());
+      for(Index i = 0; i < loc.size(); ++i) std::fprintf(g_log, "%s[%.17g,%.17g,%.17g]", i ? "," : "", kx(i), ky(i), loc(i)[c]);
+      std::fprintf(g_log, "]}\n");
+    }
+  }
+
+  void main_stokes(SimpleArgParser& args, Dist::Comm& comm, std::uint64_t data_seed)
+  {
+    typedef Shape::Hypercube<2> ShapeType;
+    typedef Geometry::ConformalMesh<ShapeType> MeshType;
+    typedef Trafo::Standard::Mapping<MeshType> TrafoType;
+    typedef Space::Lagrange2::Element<TrafoType> SpaceVeloType;
+    typedef Space::Lagrange1::Element<TrafoType> SpacePresType;
+    typedef Control::Domain::StokesDomainLevel<MeshType, TrafoType, SpaceVeloType, SpacePresType> DomainLevelType;
+    typedef Control::StokesBlockedSystemLevel<2, DataType, IndexType> SystemLevelType;
+    typedef LAFEM::DenseVector<double, Index> ScalarVector;
+    Control::Domain::PartiDomainControl<DomainLevelType> domain(comm, true);
+    domain.parse_args(args);
+    domain.set_desired_levels(args.query("level")->second);
+    domain.create(args.query("mesh")->second);
+    domain.add_trafo_mesh_part_charts();
+    const String cubature("auto-degree:5");
+    SystemLevelType sys;
+    DomainLevelType& dl = *domain.front();
+    g_phase = "assemble_gate";
+    dl.domain_asm.compile_all_elements();
+    sys.assemble_gates(domain.front());
+    g_phase = "assemble_matrix";
+    sys.assemble_velo_struct(dl.space_velo);
+    sys.assemble_pres_struct(dl.space_pres);
+    sys.matrix_a.local().format();
+    sys.matrix_s.local().format();
+    {
+      Assembly::Common::LaplaceOperatorBlocked<2> lapl;
+      Assembly::assemble_bilinear_operator_matrix_1(dl.domain_asm, sys.matrix_a.local(), lapl, dl.space_velo, cubature);
+    }
+    sys.assemble_grad_div_matrices(dl.domain_asm, dl.space_velo, dl.space_pres, cubature);
+    sys.compile_system_matrix();
+    ScalarVector vx, vy, px, py;
+    {
+      auto fx = Analytic::create_lambda_function_scalar_2d([](double x, double) { return x; });
+      auto fy = Analytic::create_lambda_function_scalar_2d([](double, double y) { return y; });
+      Assembly::Interpolator::project(vx, fx, dl.space_velo); Assembly::Interpolator::project(vy, fy, dl.space_velo);
+      Assembly::Interpolator::project(px, fx, dl.space_pres); Assembly::Interpolator::project(py, fy, dl.space_pres);
+    }
+    std::fprintf(g_log, "{\"t\":\"info\",\"rank\":%d,\"nprocs\":%d,\"ndofs_local\":%lu,\"levels_physical\":%lu,\"levels_virtual\":%lu,\"chosen_levels\":\"%s\",\"parti\":\"%s\"}\n",
+      comm.rank(), comm.size(), (unsigned long)(2 * vx.size() + px.size()), (unsigned long)domain.size_physical(), (unsigned long)domain.size_virtual(),
+      clean(domain.format_chosen_levels()).c_str(), clean(domain.get_chosen_parti_info()).c_str());
+    typedef typename SystemLevelType::GlobalSystemVector GlobalSystemVector;
+    auto fill = [&](GlobalSystemVector& v, std::uint64_t salt, bool rank_dependent)
+    {
+      const std::uint64_t rs = rank_dependent ? 17u * std::uint64_t(comm.rank() + 1) : 0u;
+      auto& vv = v.local().template at<0>(); auto& vp = v.local().template at<1>();
+      for(Index i = 0; i < vx.size(); ++i)
+      {
+        Tiny::Vector<double, 2> t; t[0] = key_value(vx(i), vy(i), data_seed + salt + rs); t[1] = key_value(vx(i), vy(i), data_seed + salt + 7u + rs);
+        vv(i, t);
+      }
+      for(Index i = 0; i < px.size(); ++i) vp(i, key_value(px(i), py(i), data_seed + salt + 13u + rs));
+    };
+    auto dump = [&](const char* name, const GlobalSystemVector& v)
+    {
+      dump_blocked(name, v.local().template at<0>(), vx, vy);
+      dump_vec((String(name) + ".p").c_str(), v.local().template at<1>(), px, py);
+    };
+    {
+      GlobalSystemVector v = sys.matrix_sys.create_vector_r();
+      fill(v, 300u, true);
+      dump("sync0_pre", v); g_phase = "sync0"; v.sync_0(); dump("sync0_post", v);
+    }
+    {
+      GlobalSystemVector v = sys.matrix_sys.create_vector_r();
+      fill(v, 400u, true);
+      dump("sync1_pre", v); g_phase = "sync1"; v.sync_1(); dump("sync1_post", v);
+    }
+    {
+      GlobalSystemVector u = sys.matrix_sys.create_vector_r(), w = sys.matrix_sys.create_vector_r(), y = sys.matrix_sys.create_vector_r();
+      fill(u, 500u, false); fill(w, 600u, false);
+      dump("u", u); dump("w", w);
+      g_phase = "dot";
+      dump_scalar("dot_u_w", u.dot(w));
+      dump_scalar("norm2_u", u.norm2());
+      dump_scalar("norm2sqr_w", w.norm2sqr());
+      dump_scalar("max_abs_u", u.max_abs_element());
+      g_phase = "matvec";
+      sys.matrix_sys.apply(y, u);
+      dump("A_u", y);
+      sys.matrix_sys.apply(y, u, w, -0.5);
+      dump("w_minus_half_A_u", y);
+    }
+  }
+
   struct L1 { template<typename T> using Element = Space::Lagrange1::Element<T>; };
   struct L2 { template<typename T> using Element = Space::Lagrange2::Element<T>; };
 }
@@ -391,7 +493,8 @@ int main(int argc, char* argv[])
   g_sched = sched; g_sched_state = mix64(sched * 1000003ull + std::uint64_t(comm.rank()));
   try
   {
-    if(space == "q2") C13::main_space<C13::L2>(args, comm, data);
+    if(space == "stokes") C13::main_stokes(args, comm, data);
+    else if(space == "q2") C13::main_space<C13::L2>(args, comm, data);
     else C13::main_space<C13::L1>(args, comm, data);
   }
   catch(const std::exception& exc)
